@@ -20,6 +20,17 @@ var sameWidthPairs = [][2]string{{"float32", "int32"}, {"int32", "float32"}, {"f
 	{"float64", "int64"}, {"int64", "float64"}, {"uint64", "float64"}, {"float64", "uint"}, {"int", "float64"}, {"float64", "uintptr"}}
 
 func driveBigIO(s *shardSet, rng *rand.Rand, thorough bool) {
+	for _, ty := range []string{"int16", "float32", "uint8", "int64"} { // a write that covers a whole large buffer exactly
+		w := s.Next()
+		w.Reset()
+		ch := 1 + rng.Intn(2)
+		fr := (4096 + rng.Intn(3)) / ch
+		w.Alloc(ty, ch, fr, fr)
+		w.Slice(0, 0, fr) // sibling view of the same storage
+		w.Write(0, ty, w.stamps(ch*fr))
+		w.SetSample(1, rng.Intn(ch*fr), w.NextStamp())
+		w.SetSample(0, rng.Intn(ch*fr), w.NextStamp())
+	}
 	for _, p := range sameWidthPairs { // p[0] = caller slice type, p[1] = buffer type
 		w := s.Next()
 		w.Reset()
